@@ -705,6 +705,16 @@ class PathEnumerator:
                 elif opn == "BitOr" and (a == 1 or b == 1):
                     val = 1
             self._set_local(l, env, cls, val, c)
+            if rv.k == "ref" and rv.j.get("bk") == "mut" and rv.place is not None and any(pr["k"] == "index" for pr in rv.place.proj):
+                # `&mut slice[j]` on a slice view (built-in indexing, no call to IndexMut): the same borrow event the overloaded
+                # operator produces, so that rules see which cell is about to be written
+                o_ = self.origins.of_place(rv.place)
+                ix = [pr for pr in rv.place.proj if pr["k"] == "index"][0]
+                if o_ is not None and o_.root[0] == "param":
+                    base_t = self.tb.local(rv.place.local, bb, si)
+                    return {"kind": "write", "root": o_.root, "path": tuple(x for x in o_.path if x != "[]"), "how": "borrow", "callee": None, "name": "index_mut",
+                            "args": [base_t, self.tb.local(ix["local"], bb, si)], "value": None, "bb": bb, "idx": si, "span": st.span,
+                            "origin_fn": self.fn.key, "argi": 0, "via": ()}
             return None
         # store through a projection: is it a write into memory rooted at a parameter / tracked local?
         o = self.origins.of_place(pl)
